@@ -431,6 +431,9 @@ def specials():
     out.append(("fatal_if_nest120.c", H("fatal_if_nest120.c") + "\n#if " + "(" * 120 + "1" + ")" * 120 + "\n#endif\n", "fatal"))
     out.append(("fatal_brace.c", H("fatal_brace.c") + "\nint\tmain(void)\n{\n\tif (1)\n\t{\n\treturn (0);\n}\n", "fatal"))
     out.append(("fatal_define.c", H("fatal_define.c") + "\n#define\n", "fatal"))
+    # fatal files whose message quotes source text with characters that are special to formatting layers
+    out.append(("fatal_fmt.c", ok_func("fatal_fmt.c") + "\n] \"x=%d, s=%s {0} {name} %(k)s \\\\ \\n\";\n", "fatal"))
+    out.append(("fatal_fmt2.c", H("fatal_fmt2.c") + "\n) 100%1 'a' \"\u00e9\u4e16 \\x1b[31m %\";\nint\tmain(void)\n{\n\treturn (0);\n}\n", "fatal"))
     # state-stressing family
     out.append(("stress_badlex150.c", ok_func("stress_badlex150.c") + "@" * 150 + "\n", "stress"))
     out.append(("stress_badlex90.c", ok_func("stress_badlex90.c", body="\treturn (0);" + "$" * 90 + "\n"), "stress"))
